@@ -260,6 +260,25 @@ def tr_init(fn):
             _fail(st, "index_fixer assignment not recognised")
     _fail(fn, "index_fixer assignment not found")
 
+def tr_social_welfare(fn):
+    params = [a.arg for a in fn.args.args]
+    body = _body(fn)
+    if len(params) != 2 or len(body) != 1 or not isinstance(body[0], ast.Return): _fail(fn, "SocialWelfare.score shape")
+    V = params[1]
+    def nansum(e):
+        if not (isinstance(e, ast.Call) and _is_np(e.func, "nansum") and len(e.args) == 1 and isinstance(e.args[0], ast.Name) and e.args[0].id == V):
+            return None
+        if not e.keywords:
+            return ("scalar", "(nansum_all V)")
+        if len(e.keywords) == 1 and e.keywords[0].arg == "axis" and isinstance(e.keywords[0].value, ast.Constant) and e.keywords[0].value.value == 0:
+            return ("vec", "(nancolsum (qncols V) V)")
+        return None
+    e = body[0].value
+    if not (isinstance(e, ast.BinOp) and isinstance(e.op, ast.Div)): _fail(e, "vector / scalar expected")
+    a, b = nansum(e.left), nansum(e.right)
+    if a is None or b is None or a[0] != "vec" or b[0] != "scalar": _fail(e, "np.nansum(V, axis=0) / np.nansum(V) expected")
+    return "divvec %s %s" % (a[1], b[1])
+
 RULES = ["Plurality", "Borda", "Veto", "KApproval", "Harmonic"]
 
 def translate_scoring(repo):
@@ -271,7 +290,7 @@ def translate_scoring(repo):
     base_score = _find(base.body, ast.FunctionDef, "score")
     out = ["(* GENERATED by harness/translate.py from socialchoicekit/deterministic_scoring.py (sha256 %s) and utils.py (sha256 %s). Do not edit. *)"
            % (hashlib.sha256(s1.encode()).hexdigest()[:16], hashlib.sha256(s2.encode()).hexdigest()[:16]),
-           "From Coq Require Import ZArith QArith List Bool String.", "Import ListNotations.", "From SCK Require Import Voting GenLib.",
+           "From Coq Require Import ZArith QArith List Bool String.", "Import ListNotations.", "From SCK Require Import Voting VoteExt GenLib GenUtil.",
            "Local Open Scope Z_scope.", ""]
     for r in RULES:
         cls = _find(m1.body, ast.ClassDef, r)
@@ -280,6 +299,11 @@ def translate_scoring(repo):
         body = ScoreTr(base_score).method(fn)
         out.append("(* %s.score, deterministic_scoring.py:%d *)" % (r, fn.lineno))
         out.append("Definition gen_score_%s (k : Z) (P : list (list Z)) : list Q :=\n%s.\n" % (r, body))
+    # SocialWelfare.score: np.nansum(V, axis=0) / np.nansum(V)
+    sw = _find(m1.body, ast.ClassDef, "SocialWelfare")
+    fn = _find(sw.body, ast.FunctionDef, "score")
+    out.append("(* SocialWelfare.score, deterministic_scoring.py:%d *)" % fn.lineno)
+    out.append("Definition gen_score_SocialWelfare (V : list (list (option Q))) : list Q :=\n  %s.\n" % tr_social_welfare(fn))
     bt, inc_default = tr_break_tie(_find(m2.body, ast.FunctionDef, "break_tie"))
     out.append("(* utils.break_tie *)")
     out.append("Definition gen_break_tie (alternatives : list Z) (tie_breaker : string) (include_accept : bool) (oracle : nat) : outcome :=\n  %s.\n" % bt)
@@ -304,3 +328,113 @@ def translate_scoring(repo):
 if __name__ == "__main__":
     import sys
     print(translate_scoring(sys.argv[1] if len(sys.argv) > 1 else "/repo"))
+
+
+# ---------------------------------------------------------------------------------------------------------------------
+# Copeland.score (deterministic_tournament.py): a loop over the alternatives building the matrix of net preferences
+# ---------------------------------------------------------------------------------------------------------------------
+def _intconst(e):
+    if isinstance(e, ast.Constant) and isinstance(e.value, int) and not isinstance(e.value, bool):
+        return e.value
+    if isinstance(e, ast.UnaryOp) and isinstance(e.op, ast.USub) and isinstance(e.operand, ast.Constant) and isinstance(e.operand.value, int):
+        return -e.operand.value
+    return None
+
+def _where_step(e, cur):
+    """np.where(CUR cmp c, a, CUR)  ->  Gallina step on t"""
+    if not (isinstance(e, ast.Call) and _is_np(e.func, "where") and len(e.args) == 3 and not e.keywords):
+        return None
+    c, a, b = e.args
+    if not (isinstance(b, ast.Name) and b.id == cur): _fail(e, "np.where must keep the current value in its else-branch")
+    if not (isinstance(c, ast.Compare) and len(c.ops) == 1 and isinstance(c.left, ast.Name) and c.left.id == cur): _fail(e, "np.where condition")
+    ops = {ast.Gt: ">?", ast.Lt: "<?", ast.GtE: ">=?", ast.LtE: "<=?", ast.Eq: "=?"}
+    k, v = _intconst(c.comparators[0]), _intconst(a)
+    if type(c.ops[0]) not in ops or k is None or v is None: _fail(e, "np.where(T cmp const, const, T) expected")
+    return "let t := (if (t %s (%d)) then (%d) else t) in" % (ops[type(c.ops[0])], k, v)
+
+def translate_copeland(repo):
+    p = os.path.join(repo, "socialchoicekit", "deterministic_tournament.py")
+    src = open(p).read()
+    mod = ast.parse(src)
+    cls = _find(mod.body, ast.ClassDef, "Copeland")
+    fn = _find(cls.body, ast.FunctionDef, "score")
+    params = [a.arg for a in fn.args.args]
+    if len(params) != 2: _fail(fn, "score(self, profile)")
+    prof = params[1]
+    def dim(e):      # profile.shape[0] -> n, profile.shape[1] -> m
+        if (isinstance(e, ast.Subscript) and isinstance(e.value, ast.Attribute) and e.value.attr == "shape" and isinstance(e.value.value, ast.Name)
+                and e.value.value.id == prof and isinstance(e.slice, ast.Constant) and e.slice.value in (0, 1)):
+            return "nm"[e.slice.value]
+        return None
+    body = _body(fn)
+    if len(body) < 4: _fail(fn, "Copeland.score: unexpected shape")
+    z = body[0]
+    ok = (isinstance(z, ast.Assign) and len(z.targets) == 1 and isinstance(z.targets[0], ast.Name) and isinstance(z.value, ast.Call) and _is_np(z.value.func, "zeros")
+          and len(z.value.args) == 1 and isinstance(z.value.args[0], ast.Tuple) and [dim(x) for x in z.value.args[0].elts] == ["m", "m"])
+    if not ok: _fail(z, "net = np.zeros((m, m)) expected")
+    net = z.targets[0].id
+    loop = body[1]
+    ok = (isinstance(loop, ast.For) and isinstance(loop.target, ast.Name) and not loop.orelse and isinstance(loop.iter, ast.Call) and isinstance(loop.iter.func, ast.Name)
+          and loop.iter.func.id == "range" and len(loop.iter.args) == 1 and dim(loop.iter.args[0]) == "m")
+    if not ok: _fail(loop, "for i in range(m) expected")
+    i = loop.target.id
+    lb = loop.body
+    first = lb[0]
+    ok = (isinstance(first, ast.Assign) and len(first.targets) == 1 and isinstance(first.targets[0], ast.Name) and isinstance(first.value, ast.BinOp)
+          and isinstance(first.value.op, ast.Sub) and isinstance(first.value.left, ast.Name) and first.value.left.id == prof)
+    if not ok: _fail(first, "T = profile - profile[:, i].reshape(n, 1) expected")
+    T = first.targets[0].id
+    r = first.value.right
+    ok = (isinstance(r, ast.Call) and isinstance(r.func, ast.Attribute) and r.func.attr == "reshape" and len(r.args) == 2 and dim(r.args[0]) == "n"
+          and isinstance(r.args[1], ast.Constant) and r.args[1].value == 1 and isinstance(r.func.value, ast.Subscript) and isinstance(r.func.value.value, ast.Name)
+          and r.func.value.value.id == prof and isinstance(r.func.value.slice, ast.Tuple) and len(r.func.value.slice.elts) == 2
+          and isinstance(r.func.value.slice.elts[0], ast.Slice) and r.func.value.slice.elts[0].lower is None and r.func.value.slice.elts[0].upper is None
+          and r.func.value.slice.elts[0].step is None and isinstance(r.func.value.slice.elts[1], ast.Name) and r.func.value.slice.elts[1].id == i)
+    if not ok: _fail(first, "profile[:, i].reshape(n, 1) expected")
+    fsteps, k = [], 1
+    while k < len(lb):
+        st = lb[k]
+        if not (isinstance(st, ast.Assign) and len(st.targets) == 1 and isinstance(st.targets[0], ast.Name) and st.targets[0].id == T): break
+        s = _where_step(st.value, T)
+        if s is None: break
+        fsteps.append(s); k += 1
+    st = lb[k] if k < len(lb) else None
+    ok = (st is not None and isinstance(st, ast.Assign) and isinstance(st.targets[0], ast.Name) and st.targets[0].id == T and isinstance(st.value, ast.Call)
+          and _is_np(st.value.func, "sum") and len(st.value.args) == 1 and isinstance(st.value.args[0], ast.Name) and st.value.args[0].id == T
+          and len(st.value.keywords) == 1 and st.value.keywords[0].arg == "axis" and _intconst(st.value.keywords[0].value) == 0)
+    if not ok: _fail(st or loop, "T = np.sum(T, axis=0) expected")
+    st = lb[k + 1] if k + 1 < len(lb) else None
+    ok = (st is not None and k + 2 == len(lb) and isinstance(st, ast.Assign) and isinstance(st.targets[0], ast.Subscript) and isinstance(st.targets[0].value, ast.Name)
+          and st.targets[0].value.id == net and isinstance(st.targets[0].slice, ast.Tuple) and len(st.targets[0].slice.elts) == 2
+          and isinstance(st.targets[0].slice.elts[0], ast.Name) and st.targets[0].slice.elts[0].id == i and isinstance(st.targets[0].slice.elts[1], ast.Slice)
+          and st.targets[0].slice.elts[1].lower is None and st.targets[0].slice.elts[1].upper is None and isinstance(st.value, ast.Name) and st.value.id == T)
+    if not ok: _fail(st or loop, "net[i, :] = T expected as the last statement of the loop")
+    # after the loop
+    rest = body[2:]
+    gsteps, cur, k = [], net, 0
+    S = None
+    while k < len(rest):
+        st = rest[k]
+        if not (isinstance(st, ast.Assign) and len(st.targets) == 1 and isinstance(st.targets[0], ast.Name)): break
+        s = _where_step(st.value, cur)
+        if s is None: break
+        gsteps.append(s); cur = st.targets[0].id; k += 1
+    st = rest[k] if k < len(rest) else None
+    v = st.value if st is not None and isinstance(st, ast.Assign) else None
+    ok = (v is not None and isinstance(v, ast.Attribute) and v.attr == "T" and isinstance(v.value, ast.Call) and _is_np(v.value.func, "sum") and len(v.value.args) == 1
+          and isinstance(v.value.args[0], ast.Name) and v.value.args[0].id == cur and len(v.value.keywords) == 1 and v.value.keywords[0].arg == "axis"
+          and _intconst(v.value.keywords[0].value) == 1 and isinstance(st.targets[0], ast.Name))
+    if not ok: _fail(st or fn, "score = np.sum(score, axis=1).T expected")
+    res = st.targets[0].id
+    st = rest[k + 1] if k + 1 < len(rest) else None
+    if not (st is not None and k + 2 == len(rest) and isinstance(st, ast.Return) and isinstance(st.value, ast.Name) and st.value.id == res): _fail(st or fn, "return score expected")
+    out = ["(* GENERATED by harness/translate.py from socialchoicekit/deterministic_tournament.py (sha256 %s). Do not edit. *)" % hashlib.sha256(src.encode()).hexdigest()[:16],
+           "From Coq Require Import ZArith List Bool.", "Import ListNotations.", "From SCK Require Import Voting GenLib.", "Local Open Scope Z_scope.", "",
+           "(* Copeland.score, deterministic_tournament.py:%d: the np.where steps applied to the rank differences ... *)" % fn.lineno,
+           "Definition gen_cop_f (t : Z) : Z :=\n  %s\n  t.\n" % "\n  ".join(fsteps),
+           "(* ... and to the net preferences *)",
+           "Definition gen_cop_g (t : Z) : Z :=\n  %s\n  t.\n" % "\n  ".join(gsteps),
+           "Definition gen_copeland (P : list (list Z)) : list Z :=\n  let m := ncols P in\n"
+           "  let net := map (fun %s => colsumZ m (map (fun row => map (fun x => gen_cop_f (x - nth %s row 0)) row) P)) (seq 0 (Z.to_nat m)) in\n"
+           "  map (fun r => sumZ (map gen_cop_g r)) net.\n" % (i, i)]
+    return "\n".join(out)
